@@ -579,6 +579,9 @@ class Interposer:
                     raise Crash()
                 return me.real_os.replace(a, b)
 
+            # `os.rename` publishes a name exactly as `os.replace` does on POSIX: the same effect for the injector and the trace
+            rename = replace
+
         def unlink(self_, *a, **kw):
             if me.hit(f"unlink:{self_.name}"):
                 raise Crash()
